@@ -39,13 +39,15 @@ func (s Set) Equal(t Term) bool {
 	}
 
 	// inclusion in both directions: a repeated element must not change the answer
+	cidx := newTermIndex(c)
 	for _, id := range s {
-		if !c.has(id) {
+		if !cidx.has(id) {
 			return false
 		}
 	}
+	sidx := newTermIndex(s)
 	for _, id := range c {
-		if !s.has(id) {
+		if !sidx.has(id) {
 			return false
 		}
 	}
@@ -61,6 +63,60 @@ func (s Set) has(t Term) bool {
 	}
 	return false
 }
+
+// termIndex answers the same question as Set.has without a scan per lookup.
+// Terms of the comparable kinds are map keys, byte arrays are keyed by their
+// content, and anything else (a set, which is not hashable) is kept aside and
+// compared with Equal.
+type termIndex struct {
+	keyed map[interface{}]struct{}
+	rest  Set
+}
+
+func newTermIndex(s Set) *termIndex {
+	x := &termIndex{keyed: make(map[interface{}]struct{}, len(s))}
+	for _, v := range s {
+		x.add(v)
+	}
+	return x
+}
+
+// termKey returns a hashable value that is equal for two terms exactly when
+// the terms are Equal, or false when the term has no such key.
+func termKey(t Term) (interface{}, bool) {
+	switch v := t.(type) {
+	case Variable:
+		return v, true
+	case Integer:
+		return v, true
+	case String:
+		return v, true
+	case Date:
+		return v, true
+	case Bool:
+		return v, true
+	case Bytes:
+		return string(v), true
+	}
+	return nil, false
+}
+
+func (x *termIndex) add(t Term) {
+	if k, ok := termKey(t); ok {
+		x.keyed[k] = struct{}{}
+		return
+	}
+	x.rest = append(x.rest, t)
+}
+
+func (x *termIndex) has(t Term) bool {
+	if k, ok := termKey(t); ok {
+		_, found := x.keyed[k]
+		return found
+	}
+	return x.rest.has(t)
+}
+
 func (s Set) String() string {
 	eltStr := make([]string, 0, len(s))
 	for _, e := range s {
@@ -72,8 +128,11 @@ func (s Set) String() string {
 func (s Set) Intersect(t Set) Set {
 	result := Set{}
 
+	tidx := newTermIndex(t)
+	seen := newTermIndex(nil)
 	for _, id := range s {
-		if t.has(id) && !result.has(id) {
+		if tidx.has(id) && !seen.has(id) {
+			seen.add(id)
 			result = append(result, id)
 		}
 	}
@@ -82,13 +141,16 @@ func (s Set) Intersect(t Set) Set {
 func (s Set) Union(t Set) Set {
 	result := Set{}
 
+	seen := newTermIndex(nil)
 	for _, id := range s {
-		if !result.has(id) {
+		if !seen.has(id) {
+			seen.add(id)
 			result = append(result, id)
 		}
 	}
 	for _, id := range t {
-		if !result.has(id) {
+		if !seen.has(id) {
+			seen.add(id)
 			result = append(result, id)
 		}
 	}
